@@ -46,24 +46,24 @@ type Spec struct {
 
 // Witness is what a replay needs: seed + config + the executed action list.
 type Witness struct {
-	Spec    Spec     `json:"spec"`
-	Seed    int64    `json:"raft_prng_seed"`
+	Spec    Spec      `json:"spec"`
+	Seed    int64     `json:"raft_prng_seed"`
 	Config  SimConfig `json:"config"`
-	Actions []string `json:"actions"`
-	Events  []string `json:"last_events"`
-	Sig     string   `json:"signature"`
-	Summary string   `json:"first_offending_event"`
-	Note    string   `json:"note"`
+	Actions []string  `json:"actions"`
+	Events  []string  `json:"last_events"`
+	Sig     string    `json:"signature"`
+	Summary string    `json:"first_offending_event"`
+	Note    string    `json:"note"`
 }
 
 type specResult struct {
-	Idx          int      `json:"i"`
-	Viol         *Violation `json:"viol,omitempty"`
-	Witness      *Witness `json:"witness,omitempty"`
-	Inconclusive string   `json:"inconclusive,omitempty"`
-	Nontrivial   []string `json:"nt,omitempty"`
+	Idx          int         `json:"i"`
+	Viol         *Violation  `json:"viol,omitempty"`
+	Witness      *Witness    `json:"witness,omitempty"`
+	Inconclusive string      `json:"inconclusive,omitempty"`
+	Nontrivial   []string    `json:"nt,omitempty"`
 	Sample       interface{} `json:"sample,omitempty"`
-	Done         bool     `json:"done"`
+	Done         bool        `json:"done"`
 }
 
 type shardTotals struct {
@@ -163,6 +163,7 @@ func makeSpec(check, tier string, seed int64, i int) Spec {
 type engines struct {
 	dir string
 	m   map[string]engine.KVEngine
+	gen int
 }
 
 func (e *engines) get(kind string) (engine.KVEngine, error) {
@@ -197,6 +198,33 @@ func (e *engines) get(kind string) (engine.KVEngine, error) {
 	return eng, nil
 }
 
+// healthy reports whether the on-disk engine still has its files (another
+// process cleaning /tmp must not turn into a verdict).
+func (e *engines) healthy(kind string) bool {
+	if kind != "rocks-pebble" {
+		return true
+	}
+	if _, ok := e.m[kind]; !ok {
+		return true
+	}
+	_, err := os.Stat(filepath.Join(e.dir, kind, "pebble", "CURRENT"))
+	return err == nil
+}
+
+// renew abandons a broken engine and opens a fresh one in a new directory.
+func (e *engines) renew(kind string) {
+	if eng, ok := e.m[kind]; ok {
+		func() {
+			defer func() { recover() }()
+			eng.CloseAll()
+		}()
+		delete(e.m, kind)
+	}
+	e.gen++
+	e.dir = filepath.Join(filepath.Dir(e.dir), fmt.Sprintf("%s-renew%d", filepath.Base(e.dir), e.gen))
+	os.MkdirAll(e.dir, 0755)
+}
+
 func (e *engines) close() {
 	for _, eng := range e.m {
 		eng.CloseAll()
@@ -214,6 +242,9 @@ type outcome struct {
 
 func runSpec(sp Spec, engs *engines, trace io.Writer) (o outcome) {
 	o.spec = sp
+	if !engs.healthy(sp.Cfg.Storage) {
+		engs.renew(sp.Cfg.Storage)
+	}
 	eng, err := engs.get(sp.Cfg.Storage)
 	if err != nil {
 		o.inc = "engine: " + err.Error()
@@ -246,6 +277,11 @@ func runSpec(sp Spec, engs *engines, trace io.Writer) (o outcome) {
 		o.inc = fmt.Sprintf("schedule %s/%s/%d did not reach its scenario (prologue or director precondition)", sp.Check, sp.Name, sp.Idx)
 	}
 	s.closeAll()
+	if (s.viol != nil || o.inc != "") && !engs.healthy(sp.Cfg.Storage) {
+		o.inc = fmt.Sprintf("schedule %s/%d: the engine directory under the scratch dir disappeared during the run (removed by another process); no verdict", sp.Check, sp.Idx)
+		s.viol = nil
+		engs.renew(sp.Cfg.Storage)
+	}
 	return
 }
 
